@@ -13,6 +13,7 @@ mod c09;
 mod c10;
 mod c11;
 mod c13;
+mod c14;
 mod c18;
 mod c19;
 
@@ -69,6 +70,7 @@ fn main() {
         "C13-gap" => c13::search_gap(&mut rng, budget, &mut fails, 26 * 3600),
         "C18" | "C17" => c18::search(&mut rng, budget, &mut fails),
         "C19" => c19::search(&mut rng, budget, &mut fails),
+        "C14" => c14::search(&mut rng, budget, &mut fails),
         "C10" => c10::search(&mut rng, budget, &mut fails),
         "C04" | "C03" => c04::search(&mut rng, budget, &mut fails),
         _ => {
